@@ -46,7 +46,7 @@ def is_value(name):
 def variant_names(fb, suffix):
     for c in fb.crates:
         for k, a in c.adts.items():
-            if k.endswith(suffix) and a['kind'] == 'enum':
+            if k.startswith('clock_bound_d::') and k.endswith(suffix) and a['kind'] == 'enum':
                 return {v.get('discr', v['index']): v['name'] for v in a['variants']}
     return {}
 
@@ -79,7 +79,7 @@ class UpdaterModel:
         chk.analysed['paths'] += len(self.paths)
         for p in self.engine.inlined:
             chk.analysed['functions'].add(p)
-        self.msg_names = variant_names(fb, 'clock_bound_d::Message')
+        self.msg_names = variant_names(fb, '::Message')
         self.infos = [self.classify(p) for p in self.paths]
         # the updater fields that feed the record
         self.field_of = {}     # record field index -> updater field name (from a path that does not update)
